@@ -258,7 +258,10 @@ def check_flags(rep, repo):
                 for c in n.cases:
                     if isinstance(c.pattern, ast.MatchValue) and isinstance(c.pattern.value, ast.Constant):
                         consts.add(c.pattern.value.value)
-    rep.check({2, 3} <= consts, 'C09.R3', f.where, '-na 2 selects the 2-agent format and -na 3 the 3-agent format', got=sorted(consts), want=[2, 3], construct='numagents values %s' % sorted(consts))
+    # one of the two documented values is enough to tell the formats apart (`== 3` / else); which sections each value
+    # selects is decided by the reader model for -na 2 and for -na 3 (C10.R2, quoted in R2)
+    rep.check(bool({2, 3} & consts) and consts <= {2, 3}, 'C09.R3', f.where, '-na 2 selects the 2-agent format and -na 3 the 3-agent format: the reader branches on these values only', got=sorted(consts),
+              want='2 and / or 3', construct='numagents values %s' % sorted(consts))
 
 
 def check_integers(rep, repo):
